@@ -177,6 +177,5 @@ structure Front (app : App) (s : State) (n0 : Nat) : Prop where
   clean : s.fu.toCleanPending = false
   dlen : s.decodeBus.bufferLength = 2
   duOk : s.du.pendingBranchResolution = false
-  duRet : s.du.ret = false
 
 end Proofs.Mvp60Sl
